@@ -93,6 +93,33 @@ class Folder(object):
                 mod, nm = d.split(".")
                 if mod in self.pkg:
                     return self.name(mod, nm)
+        if isinstance(e, ast.BinOp) and isinstance(e.op, ast.Mod):
+            # "...%s..." % value / % (v1, v2): printf-style formatting of folded strings and integers
+            l_ = self.expr(module, e.left)
+            r_ = self.expr(module, e.right)
+            if isinstance(l_, str):
+                try:
+                    return l_ % (tuple(r_) if isinstance(r_, (list, tuple)) else r_)
+                except (TypeError, ValueError) as ex:
+                    raise AnalysisError("cannot fold %s: %s" % (ast.unparse(e), ex))
+        if isinstance(e, ast.JoinedStr):
+            out = []
+            for v in e.values:
+                if isinstance(v, ast.Constant):
+                    out.append(str(v.value))
+                elif isinstance(v, ast.FormattedValue) and v.conversion == -1 and v.format_spec is None:
+                    out.append(str(self.expr(module, v.value)))
+                else:
+                    raise AnalysisError("cannot fold f-string part: %s" % ast.unparse(e))
+            return "".join(out)
+        if isinstance(e, ast.Call) and isinstance(e.func, ast.Attribute) and e.func.attr == "format" and not e.keywords \
+                and isinstance(e.func.value, (ast.Constant, ast.Name)):
+            base = self.expr(module, e.func.value)
+            if isinstance(base, str):
+                try:
+                    return base.format(*[self.expr(module, a) for a in e.args])
+                except (IndexError, KeyError, ValueError) as ex:
+                    raise AnalysisError("cannot fold %s: %s" % (ast.unparse(e), ex))
         if isinstance(e, (ast.Tuple, ast.List)):
             return [self.expr(module, x) for x in e.elts]
         if isinstance(e, ast.Call):
